@@ -5,21 +5,26 @@ import S3V.Base.Bytes
 Small-step semantics of one write (`put_object`, `upload_part`, `complete_multipart_upload`) over an abstract
 disk state, with a fault after any step; and of `n` writers to one key under any interleaving.
 
-The steps mirror the code (current tree, i.e. after 3229285 — checksums are compared *before* `done()` — and
-b01fec8 — a put without metadata removes the previous object's metadata file):
+The steps mirror the code (current tree, i.e. after 3229285 — checksums are compared *before* `done()` —,
+b01fec8 — a put without metadata removes the previous object's metadata file — and 0932917 —
+`complete_multipart_upload` validates first, assembles and renames, and only then moves the metadata, removes the part
+files and the upload record):
 
 | step        | code                                                                                   |
 |-------------|----------------------------------------------------------------------------------------|
-| `consume`   | `complete_multipart_upload`: `delete_upload_id` (the upload record is removed first)     |
-| `moveMeta`  | `complete_multipart_upload`: `load_metadata(.., Some(id))` → `save_metadata(.., None)`  |
+| `probe p`   | `complete_multipart_upload`, validation loop: `fs::metadata(part file)` — missing → `InvalidPart`; nothing is changed |
+| `sizes ok`  | `complete_multipart_upload`: the size rule over the listed parts (`EntityTooSmall`); nothing is changed   |
 | `create`    | `prepare_file_write`: `tmp_file_counter.fetch_add(1)`, `File::create(tmp).await` — the file exists on disk when the blocking task ran |
 | `adopt`     | the `await` returns and `FileWriter { clean_tmp: true }` is constructed — only from here on does `Drop` remove the temporary file |
 | `frame f`   | `copy_bytes`: one item of the body stream; `Err` ends the call; `Ok` is appended          |
-| `part p`    | `complete_multipart_upload`: open part file (missing → error), `tokio::io::copy`, size rule, `remove_file(part)` |
+| `part p`    | `complete_multipart_upload`, after the validation: open the part file (missing → error), `tokio::io::copy` into the temporary file |
 | `flush`     | `writer.flush()`                                                                       |
 | `check`     | the four checksum comparisons (`BadDigest`)                                            |
 | `mkdirs`    | `done()`, first await: `create_dir_all(dest.parent())` — fails when a parent is a plain file; `clean_tmp` is still `true` |
 | `rename`    | `done()`, second await: `fs::rename(tmp, dest)` — POSIX-atomic; fails when `dest` is a directory; only AFTER it succeeded `clean_tmp = false` |
+| `moveMeta`  | `complete_multipart_upload`, after the rename: `load_metadata(.., Some(id))` → `save_metadata(.., None)`, `delete_metadata(.., Some(id))` |
+| `dropPart`  | `complete_multipart_upload`, after the metadata: `remove_file(part file)`, one per listed part          |
+| `consume`   | `complete_multipart_upload`, last: `delete_upload_id` (the upload record is removed)                    |
 | `saveMeta`  | `save_metadata` (`fs::write`, not atomic, after the rename) — request with metadata        |
 | `dropMeta`  | request without metadata: `get_metadata_path` + `remove_file` of a metadata file left by the previous object (after the rename; fails if that path is a directory) |
 | `saveInfo`  | `save_internal_info` (`fs::write`, after the rename)                                   |
@@ -61,7 +66,7 @@ structure St where
   deriving DecidableEq, Repr
 
 inductive Code where
-  | ok | internalError | badDigest | entityTooSmall
+  | ok | internalError | badDigest | entityTooSmall | invalidPart
   deriving DecidableEq, Repr
 
 def Code.name : Code → String
@@ -69,6 +74,7 @@ def Code.name : Code → String
   | .internalError => "InternalError"
   | .badDigest => "BadDigest"
   | .entityTooSmall => "EntityTooSmall"
+  | .invalidPart => "InvalidPart"
 
 /-- one part of a multipart upload as `complete_multipart_upload` meets it -/
 inductive Part where
@@ -76,9 +82,22 @@ inductive Part where
   | missing
   deriving DecidableEq, Repr
 
+/-- the part file exists -/
+def Part.there : Part → Bool
+  | .present _ _ => true
+  | .missing => false
+
+/-- the size rule does not object to this part -/
+def Part.fine : Part → Bool
+  | .present _ ok => ok
+  | .missing => true
+
 inductive Step where
+  | probe (p : Part)
+  | sizes (ok : Bool)
   | consume
   | moveMeta (uploadHasMeta : Bool) (fails : Bool)
+  | dropPart
   | create
   | adopt
   | frame (f : Frame)
@@ -94,16 +113,17 @@ inductive Step where
 
 /-- effect of one step; `.error c` = the call returns `Err(c)` at this step (state before cleanup) -/
 def exec (s : St) : Step → Except (Code × St) St
+  | .probe p => if p.there then .ok s else .error (.invalidPart, s)
+  | .sizes ok => if ok then .ok s else .error (.entityTooSmall, s)
   | .consume => .ok { s with uploadRec := false }
+  | .dropPart => .ok { s with partsGone := s.partsGone + 1 }
   | .moveMeta has fails =>
     if !has then .ok s else if fails then .error (.internalError, s) else .ok { s with mdata := .new }
   | .create => .ok { s with tmp := true }
   | .adopt => .ok { s with owned := true }
   | .frame (.ok b) => .ok { s with acc := s.acc ++ b, pulled := s.pulled + 1 }
   | .frame .err => .error (.internalError, { s with pulled := s.pulled + 1 })
-  | .part (.present b sizeOk) =>
-    if sizeOk then .ok { s with acc := s.acc ++ b, partsGone := s.partsGone + 1 }
-    else .error (.entityTooSmall, { s with acc := s.acc ++ b })
+  | .part (.present b _) => .ok { s with acc := s.acc ++ b }
   | .part .missing => .error (.internalError, s)
   | .flush => .ok s
   | .check eq => if eq then .ok s else .error (.badDigest, s)
@@ -163,8 +183,13 @@ def putObjectProg (c : Cfg) : List Step :=
 def uploadPartProg (c : Cfg) : List Step :=
   [.create, .adopt] ++ c.frames.map .frame ++ [.flush, .mkdirs c.mkdirsFails, .rename c.renameFails]
 
+/-- what follows the rename in `complete_multipart_upload`: the metadata, the part files, the upload record -/
+def completePost (c : Cfg) : List Step :=
+  .moveMeta c.hasMeta c.metaFails :: (c.parts.map fun _ => Step.dropPart) ++ [.consume]
+
 def completeProg (c : Cfg) : List Step :=
-  [.consume, .moveMeta c.hasMeta c.metaFails, .create, .adopt] ++ c.parts.map .part ++ [.mkdirs c.mkdirsFails, .rename c.renameFails]
+  c.parts.map .probe ++ .sizes (c.parts.all Part.fine) :: .create :: .adopt ::
+    (c.parts.map .part ++ .mkdirs c.mkdirsFails :: .rename c.renameFails :: completePost c)
 
 /-- all body bytes, if no item is an error -/
 def allBytes : List Frame → Option Bytes
